@@ -32,6 +32,23 @@ CHECKS = {
         "Rat vs float compared with 1e-9 relative tolerance; random.random() replaced by a fixed value; heapq contract.",
    technique="Lean 4 invariant + arithmetic proofs, source-to-Lean translation of the counter logic, differential correspondence",
    design="6 C19"),
+ "C18": dict(
+   text="Lean 4 proof about a two-thread model with a lock (Model/Threads): for every schedule - a thread switch at any "
+        "internal point of any queue operation - the queue state equals the sequential application of the committed "
+        "operations, every operation of each thread takes effect exactly once and in order, at most one thread is inside an "
+        "operation, a blocked thread is waiting for the lock holder, and some thread can always progress (no deadlock); for "
+        "the deque loops the helper operations built from atomic identity-addressed primitives are linearisable w.r.t. a "
+        "foreign append landing at any boundary. The model's assumption (every heap access of PosPriorityQueue is under "
+        "`with self._lock`; the deque helpers use only atomic primitives) is regenerated from the source by the translator on "
+        "every run and checked by `decide`. Tie to the running code: a real second thread calls call_soon_threadsafe while the "
+        "loop thread's operation is interrupted at every Python-level boundary (sys.settrace line events incl. every __lt__ "
+        "inside heapq); oracle = nothing raised, every callback exactly once, run order a linearisation of the reference list "
+        "model; plus a multi-thread stress run with a minimal switch interval. PARTIAL with respect to where the interpreter "
+        "really switches threads: no model exhibits the GIL's decisions; they are forced.",
+   note="Trusted: Lean kernel + standard axioms; deque primitives and RLock behave as documented (atomic / mutual exclusion); "
+        "AST-level lock-coverage analysis in translator/py2lean.py; forced switches stand in for real preemption.",
+   technique="Lean 4 invariant proof over all schedules + source-derived lock-coverage obligations + forced-interleaving harness",
+   design="6 C18"),
 }
 
 def main():
